@@ -53,11 +53,22 @@
 (*     qerr     querier failure: none jr_err pending_err pl_missing        *)
 (*     known    (invite) R already knows the room                          *)
 (*     uq       answer of the user-ID-for-sender querier: ok err nil       *)
+(*     map      (pseudo-ID rooms) the mxid_mapping of the join: ok |       *)
+(*              missing | unsigned | wrongkey (signed under the user's     *)
+(*              server's name with another key) | other (validly signed,   *)
+(*              but only by another server)                                *)
 (*     stripped (invite) the request carries invite_room_state: "given",   *)
 (*              or "none" (the handler derives it from its own state).     *)
 (*              No conjunct reads it: in particular "target not already    *)
 (*              joined" must hold whichever way the state arrives.         *)
 (*     fam      tag of the generating family (Handshake_gen)               *)
+(*     extra    content the event carries besides what the handshake       *)
+(*              needs: none | tpi (a third_party_invite block) | unknown   *)
+(*              (an unknown key) | unsigned (an unsigned block).  No       *)
+(*              conjunct reads it.                                         *)
+(*     env      see SJEnvOK / InvEnvOK                                     *)
+(*     fb       forgery budget of the scenario (besides MaxForge)          *)
+(*     retry    J calls PerformJoin again after a refused attempt          *)
 (***************************************************************************)
 EXTENDS Integers, Sequences, FiniteSets, TLC
 
@@ -82,11 +93,35 @@ NoEv  == [type |-> "none"]
 (* Room version features                                                   *)
 (***************************************************************************)
 RestrictedRules        == {"restricted", "knock_restricted"}
-RestrictedSupported(v) == v \in {"8", "9", "10", "11", "12"}
+AllVersions == {"1", "2", "3", "4", "5", "6", "7", "8", "9", "10", "11", "12",
+                "org.matrix.msc3667", "org.matrix.msc3787", "org.matrix.msc4014", "org.matrix.hydra.11"}
+PseudoIDs(v)           == v = "org.matrix.msc4014"  \* senders are per-room keys, mapped to users by signed mxid_mappings
+RestrictedSupported(v) == v \in {"8", "9", "10", "11", "12", "org.matrix.msc3787", "org.matrix.msc4014", "org.matrix.hydra.11"}
 FormatV1(v)            == v \in {"1", "2"}          \* event ID carried inside the event
-PrivCreators(v)        == v = "12"
-DomainlessRoom(v)      == v = "12"                  \* room ID = create event ID
-ViaSigned(v)           == v \in {"9", "10", "11", "12"}   \* join_authorised_via_users_server survives redaction
+PrivCreators(v)        == v \in {"12", "org.matrix.hydra.11"}
+DomainlessRoom(v)      == v \in {"12", "org.matrix.hydra.11"}    \* room ID = create event ID
+\* join_authorised_via_users_server survives redaction (is covered by the signatures)
+ViaSigned(v)           == v \in {"9", "10", "11", "12", "org.matrix.msc3787", "org.matrix.msc4014", "org.matrix.hydra.11"}
+
+(***************************************************************************)
+(* Signature classes of an event, relative to its sender's server S.       *)
+(* A message is validly signed by S if at least one signature under S's    *)
+(* name verifies with a key of S that was valid at the event's time.       *)
+(*   valid        one signature, key valid                                 *)
+(*   vu_eq        ... key's valid_until_ts = the event's origin_server_ts  *)
+(*   ex_m1        ... key's expired_ts = origin_server_ts + 1              *)
+(*   two_keys     two key IDs under S: one verifies, one is garbage        *)
+(*   plus_other   also validly signed by a third server                    *)
+(*   presigned    also already validly signed by the local server R        *)
+(*   presigned_bad  also carrying a garbage signature under R's name       *)
+(* everything else is not a valid signature of S: none, wrongkey, other    *)
+(* (only another server), tampered, expired (valid_until_ts before the     *)
+(* event's time), vu_p1 (one millisecond before), revoked (expired_ts      *)
+(* before it), ex_eq (expired_ts = origin_server_ts).  The handlers         *)
+(* countersign: they apply the strict validity rule in every room version. *)
+(***************************************************************************)
+GoodSigs == {"valid", "vu_eq", "ex_m1", "two_keys", "plus_other", "presigned", "presigned_bad"}
+SigOK(x) == x \in GoodSigs
 
 (***************************************************************************)
 (* Authorisation rules for U's own join / leave (Matrix specification,     *)
@@ -122,9 +157,10 @@ RestrictedVia(s) ==
     ELSE IF s.jr \notin RestrictedRules THEN "none"
     ELSE IF s.qerr = "pending_err" THEN "error"
     ELSE IF s.pending THEN "none"
-    ELSE IF s.qerr = "pl_missing" THEN "error"
+    ELSE IF s.qerr \in {"pl_missing", "pl_err"} THEN "error"
+    ELSE IF PrivCreators(s.ver) /\ s.qerr \in {"create_err", "create_nil"} THEN "error"
     ELSE IF APowerOK(s) /\ (\E i \in DOMAIN s.allow : s.allow[i] \in {"listed", "listed2"}) THEN "A"
-    ELSE IF \E i \in DOMAIN s.allow : s.allow[i] \in {"nonres", "info_err"} THEN "unable"
+    ELSE IF \E i \in DOMAIN s.allow : s.allow[i] \in {"nonres", "info_err", "info_nil"} THEN "unable"
     ELSE "forbidden"
 
 (***************************************************************************)
@@ -167,6 +203,12 @@ MLChecks(q, s) ==
        Chk("builder", s.tb \in {"ok", "nocreate"},     "internal"),
        Chk("auth",    LeaveAuth(StateOf(s)),           "M_FORBIDDEN") >>
 
+\* --- the environment of send_join / invite: a verifier or a querier that fails leaves a conjunct unestablished ---
+\*  env: ok | kr_err (the key ring fails) | memq_err (membership querier) | rq_err (room querier)
+SJEnvOK(s)   == s.env \notin {"kr_err", "memq_err"}
+InvEnvOK(s)  == s.env \notin {"kr_err", "rq_err"} /\ ~(s.env = "memq_err" /\ s.known)
+Inv3EnvOK(s) == s.env # "rq_err" /\ ~(s.env = "memq_err" /\ s.known)
+
 \* --- send_join ----------------------------------------------------------
 \*  q = [origin, room, eid, ev]   ev = [type, mship, ssrv, skey, room, via, sig, auth]
 \*  ev.sig describes the signatures relative to the sender's server:
@@ -176,13 +218,16 @@ SJChecks(q, s) ==
     LET e == q.ev IN
     << Chk("rv",        s.rv = "known",                            "M_UNSUPPORTED_ROOM_VERSION"),
        Chk("skey",      e.skey = "sender",                         "M_BAD_JSON"),
+       \* in pseudo-ID rooms the sender is tied to its user (hence to a server) by a mapping that server signed
+       Chk("mapping",   PseudoIDs(s.ver) => s.map = "ok",          "M_FORBIDDEN"),
        Chk("origin",    s.uq = "ok" /\ e.ssrv = q.origin,          "M_FORBIDDEN"),
        Chk("room",      e.room = q.room,                           "M_BAD_JSON"),
        Chk("eid",       q.eid = "match",                           "M_BAD_JSON"),
        Chk("isjoin",    e.type = "member" /\ e.mship = "join",     "M_BAD_JSON"),
-       Chk("sig",       e.sig = "valid",                           "M_FORBIDDEN"),
+       Chk("sig",       SigOK(e.sig),                              "M_FORBIDDEN"),
        Chk("notbanned", s.mem # "ban",                             "M_FORBIDDEN"),
-       Chk("via",       e.via \in {"none", "local"},               "M_BAD_JSON") >>
+       Chk("via",       e.via \in {"none", "local"},               "M_BAD_JSON"),
+       Chk("env",       SJEnvOK(s),                                "internal") >>
 
 \* --- invite -------------------------------------------------------------
 \*  q = [room, ev]    ev.skey: "invitee" "otherlocal" "sender" "absent"
@@ -191,15 +236,17 @@ InvChecks(q, s) ==
     << Chk("rv",        s.rv = "known",                            "M_UNSUPPORTED_ROOM_VERSION"),
        Chk("room",      e.room = q.room,                           "M_BAD_JSON"),
        Chk("isinvite",  e.type = "member" /\ e.mship = "invite" /\ e.skey = "invitee", "M_BAD_JSON"),
-       Chk("sig",       s.uq = "ok" /\ e.sig = "valid",            "M_FORBIDDEN"),
-       Chk("notjoined", ~(s.known /\ s.mem = "join"),              "M_FORBIDDEN") >>
+       Chk("sig",       s.uq = "ok" /\ SigOK(e.sig),               "M_FORBIDDEN"),
+       Chk("notjoined", ~(s.known /\ s.mem = "join"),              "M_FORBIDDEN"),
+       Chk("env",       InvEnvOK(s),                               "internal") >>
 
 \* --- invite, v3 endpoint (the local server completes and signs a template itself) ------------------
 \*  q = [room (path), proom (room named by the template)]
 Inv3Checks(q, s) ==
     << Chk("rv",        s.rv = "known",                            "M_UNSUPPORTED_ROOM_VERSION"),
        Chk("room",      q.proom = q.room,                          "M_BAD_JSON"),
-       Chk("notjoined", ~(s.known /\ s.mem = "join"),              "M_FORBIDDEN") >>
+       Chk("notjoined", ~(s.known /\ s.mem = "join"),              "M_FORBIDDEN"),
+       Chk("env",       Inv3EnvOK(s),                              "internal") >>
 
 (***************************************************************************)
 (* What a handler returns with an accepted event: the event as received    *)
@@ -212,15 +259,17 @@ NoRet == [ev |-> NoEv, rsig |-> FALSE]
 (* J's side: the checks on the send_join response                          *)
 (*   m = [res, ev, jret, create, st, jrsig, ban]                           *)
 (*     create  "ok" | "missing" | "unknownver" | "badsig"                  *)
-(*     st      "ok" | "dup" (a state tuple twice) | "nokey" (an event      *)
-(*             without state key)                                          *)
+(*             | "nochain" (empty auth chain)                              *)
+(*     st      "ok" | "dup" (a state tuple twice) | "dupmem" (two member    *)
+(*             events of U) | "nokey" (an event without state key) |       *)
+(*             "nocreate" (the state list lacks the create event)          *)
 (*     jrsig   "ok" | "bad": signature on the join-rules event             *)
 (*     ban     "yes": a (validly signed) ban of U is in the returned state *)
 (*     jret    the join event in the response: "signed" | "absent" |       *)
-(*             "notjoin" (ignored by J)                                    *)
+(*             "notjoin" | "malformed" (ignored by J)                      *)
 (***************************************************************************)
 RespState(m, s) ==
-    [create |-> m.create = "ok",
+    [create |-> m.create = "ok" /\ m.st # "nocreate",
      jr     |-> IF m.jrsig = "bad" THEN "none" ELSE s.jr,        \* an event with a bad signature is discarded
      mem    |-> IF m.ban = "yes" THEN "ban" ELSE s.mem,
      aHere  |-> s.aHere, aOK |-> APowerOK(s)]
@@ -241,7 +290,7 @@ PJChecks(m, e0, s) ==
     LET e == Adopted(m, e0) IN
     << Chk("accepted", m.res = "ok",                                "remote"),
        Chk("create",   m.create \in {"ok", "badsig"},               "nocreate"),     \* present, known version
-       Chk("shape",    m.st = "ok",                                 "state"),
+       Chk("shape",    m.st \in {"ok", "nocreate"},                 "state"),
        Chk("authev",   e.type = "member" /\ JoinAuth(s.ver, AuthEvState(m, e, s), ViaOf(e)), "auth"),  \* allowed by its auth events
        Chk("auth",     e.type = "member" /\ JoinAuth(s.ver, RespState(m, s), ViaOf(e)),      "auth") >>
 
@@ -250,25 +299,39 @@ PJChecks(m, e0, s) ==
 (***************************************************************************)
 Base(v) == [ver |-> v, rv |-> "known", inRoom |-> TRUE, jr |-> "public", mem |-> "none", pending |-> FALSE,
             allow |-> <<>>, apl |-> "ok", aHere |-> TRUE, tb |-> "ok", qerr |-> "none", known |-> TRUE,
-            uq |-> "ok", stripped |-> "none", fam |-> "e2e"]
+            uq |-> "ok", map |-> "ok", stripped |-> "none", fam |-> "e2e", extra |-> "none", env |-> "ok", fb |-> 9, retry |-> FALSE]
 
 E2EJoin(vs) ==
     UNION {{[Base(v) EXCEPT !.jr = jr, !.mem = mem, !.inRoom = ir, !.pending = (mem = "invite"), !.allow = al] :
                al \in (IF jr = "restricted" /\ mem = "none" THEN {<<"listed">>, <<"nouser">>, <<"nonres", "listed">>}
                        ELSE IF jr = "restricted" THEN {<<"listed">>} ELSE {<<>>})} :
            v \in vs, jr \in {"public", "invite", "restricted"}, mem \in {"none", "invite", "ban"}, ir \in BOOLEAN}
+\* quick tier: two forgeries only where the handshake can get past make_join without them
+E2EJoinR(vs) == {[s EXCEPT !.retry = (s.inRoom /\ s.mem = "none" /\ s.jr \in {"public", "restricted"}
+                                        /\ s.allow \in {<<>>, <<"listed">>}),
+                           !.fb = IF ScenarioSet = "e2e_quick" /\ ~(s.inRoom /\ s.mem # "ban") THEN 1 ELSE 9] : s \in E2EJoin(vs)}
 E2ELeave(vs)  == {[Base(v) EXCEPT !.mem = mem, !.inRoom = ir] : v \in vs, mem \in {"join", "ban"}, ir \in BOOLEAN}
 E2EInvite(vs) == {[Base(v) EXCEPT !.mem = mem, !.known = kn, !.stripped = st] :
                       v \in vs, mem \in {"none", "join"}, kn \in BOOLEAN, st \in {"none", "given"}}
+
+\* every registered room version (user IDs as sender IDs): a few scenarios each, at most one forgery
+E2EVersions == AllVersions \ {"org.matrix.msc4014"}
+AllVerJoin ==
+    {[Base(v) EXCEPT !.jr = x[1], !.mem = x[2], !.pending = (x[2] = "invite"), !.allow = x[3], !.fb = 1] :
+        v \in E2EVersions, x \in {<<"public", "none", <<>>>>, <<"invite", "invite", <<>>>>, <<"knock", "none", <<>>>>,
+                                  <<"restricted", "none", <<"listed">>>>, <<"knock_restricted", "none", <<"nouser">>>>}}
+AllVerLeave  == {[Base(v) EXCEPT !.mem = "join", !.fb = 1] : v \in E2EVersions}
+AllVerInvite == {[Base(v) EXCEPT !.mem = mem, !.stripped = "given", !.fb = 1] : v \in E2EVersions, mem \in {"none", "join"}}
 
 Scenarios(flw) ==
     LET vs == CASE ScenarioSet = "e2e_quick" -> {"10"}
                 [] ScenarioSet = "e2e_thorough" -> {"1", "6", "10", "11", "12"}
                 [] OTHER -> {"10"}
         ok(s) == (s.jr \in RestrictedRules => RestrictedSupported(s.ver))
-    IN  CASE flw = "join"   -> {s \in E2EJoin(vs) : ok(s)}
-          [] flw = "leave"  -> E2ELeave(vs)
-          [] flw = "invite" -> E2EInvite(vs)
+        allv == ScenarioSet \in {"e2e_quick", "e2e_thorough"}
+    IN  CASE flw = "join"   -> {s \in E2EJoinR(vs) \cup (IF allv THEN AllVerJoin ELSE {}) : ok(s)}
+          [] flw = "leave"  -> E2ELeave(vs) \cup (IF allv THEN AllVerLeave ELSE {})
+          [] flw = "invite" -> E2EInvite(vs) \cup (IF allv THEN AllVerInvite ELSE {})
 
 Flows == {"join", "leave", "invite"}
 
@@ -278,6 +341,7 @@ Init ==
     /\ phase = "start" /\ net = NoMsg /\ jev = NoEv /\ hist = <<>> /\ nforge = 0 /\ pj = ""
 
 Log(r) == hist' = Append(hist, r)
+Entries(a) == {i \in DOMAIN hist : hist[i].a = a}
 Next_(ph) == IF flow = "product" THEN "done" ELSE ph
 
 (***************************************************************************)
@@ -335,9 +399,18 @@ JoinDone ==
     /\ phase = "sjresp" /\ net.k = "sjresp"
     /\ LET d == Decide(PJChecks(net, jev, sc)) IN
        /\ pj' = d.res
-       /\ Log([a |-> "JoinDone", resp |-> net, res |-> d.res, code |-> d.code, why |-> d.why])
+       /\ Log([a |-> "JoinDone", resp |-> net, jev |-> jev, res |-> d.res, code |-> d.code, why |-> d.why])
     /\ phase' = "done" /\ net' = NoMsg
     /\ UNCHANGED <<sc, flow, jev, nforge>>
+
+\* J tries again after a refused attempt (the same PerformJoin input); the network leaves the second attempt alone
+CanRetry == flow = "join" /\ phase = "done" /\ sc.retry /\ pj = "refused" /\ Entries("Retry") = {}
+Retry ==
+    /\ CanRetry
+    /\ phase' = "start" /\ net' = NoMsg /\ jev' = NoEv /\ pj' = "" /\ nforge' = MaxForge
+    /\ Log([a |-> "Retry"])
+    /\ UNCHANGED <<sc, flow>>
+Final == phase = "done" /\ ~CanRetry
 
 (***************************************************************************)
 (* Leave and invite handshakes (request, response)                         *)
@@ -397,8 +470,8 @@ ForgeTable ==
      sjreq  |-> [origin |-> {"X"}, room |-> {"other"}, eid |-> {"other"},
                  e_type |-> {"other"}, e_mship |-> {"leave"}, e_skey |-> {"other"}, e_ssrv |-> {"X"},
                  e_room |-> {"other"}, e_via |-> {"remote", "local"}, e_sig |-> {"none", "wrongkey", "other"}],
-     sjresp |-> [create |-> {"missing", "unknownver", "badsig"}, st |-> {"dup", "nokey"}, jrsig |-> {"bad"},
-                 ban |-> {"yes"}, jret |-> {"absent", "notjoin"}],
+     sjresp |-> [create |-> {"missing", "unknownver", "badsig", "nochain"}, st |-> {"dup", "dupmem", "nokey", "nocreate"},
+                 jrsig |-> {"bad"}, ban |-> {"yes"}, jret |-> {"absent", "notjoin", "malformed"}],
      mlreq  |-> [origin |-> {"X"}, usrv |-> {"X"}, room |-> {"other"}],
      invreq |-> [room |-> {"other"}, e_type |-> {"other"}, e_mship |-> {"join"}, e_skey |-> {"otherlocal", "sender"},
                  e_ssrv |-> {"R"},      \* the inviter is made a user of the invited user's own server
@@ -468,7 +541,7 @@ ResignChoices(f) == IF f \in {"e_type", "e_mship", "e_skey", "e_ssrv", "e_room",
 ForgeGuard(f, v, resign) ==
     /\ flow # "product"
     /\ net.k \in DOMAIN ForgeTable
-    /\ nforge < MaxForge
+    /\ nforge < MaxForge /\ nforge < sc.fb
     /\ f \in DOMAIN ForgeTable[net.k]
     /\ v \in ForgeTable[net.k][f]
     /\ resign \in ResignChoices(f)
@@ -495,7 +568,7 @@ ForgeAny ==
     /\ \E f \in DOMAIN ForgeTable[net.k] : \E v \in ForgeTable[net.k][f] : \E r \in ResignChoices(f) : Forge(f, v, r)
 
 Next ==
-    \/ MakeJoinReq \/ MakeJoinResp \/ BuildJoin \/ SendJoinReq \/ SendJoinResp \/ JoinDone
+    \/ MakeJoinReq \/ MakeJoinResp \/ BuildJoin \/ SendJoinReq \/ SendJoinResp \/ JoinDone \/ Retry
     \/ MakeLeaveReq \/ MakeLeaveResp \/ InviteReq \/ InviteResp \/ InviteV3Resp
     \/ ForgeAny
 
@@ -504,8 +577,6 @@ Spec == Init /\ [][Next]_vars
 (***************************************************************************)
 (* The property, over the history (independent of the check sequences)     *)
 (***************************************************************************)
-Entries(a) == {i \in DOMAIN hist : hist[i].a = a}
-
 \* 1. HandleMakeJoin / HandleMakeLeave return a template only if ...
 MJConjuncts(q, s) ==
     /\ q.vers = "has"                                      \* the remote supports the room version
@@ -539,8 +610,9 @@ SJConjuncts(q, s) ==
     /\ e.skey = "sender"                                   \* whose sender equals its state key
     /\ e.room = q.room /\ q.eid = "match"                  \* whose room and event ID match the request
     /\ s.uq = "ok" /\ e.ssrv = q.origin                    \* whose sender belongs to the requesting server
-    /\ e.sig = "valid"                                     \* which that server has validly signed
-    /\ s.mem # "ban"                                       \* whose target is not banned
+    /\ (PseudoIDs(s.ver) => s.map = "ok")                  \*   (pseudo IDs: by a mapping that server signed)
+    /\ SigOK(e.sig) /\ s.env # "kr_err"                    \* which that server has validly signed
+    /\ s.mem # "ban" /\ s.env # "memq_err"                 \* whose target is not banned
     /\ e.via \in {"none", "local"}                         \* whose authorising user is local
 
 InvConjuncts(q, s) ==
@@ -548,10 +620,10 @@ InvConjuncts(q, s) ==
     /\ s.rv = "known"
     /\ e.type = "member" /\ e.mship = "invite" /\ e.skey = "invitee"   \* it is an invite of the invited user
     /\ e.room = q.room
-    /\ s.uq = "ok" /\ e.sig = "valid"                      \* validly signed by the sender's server
-    /\ ~(s.known /\ s.mem = "join")                        \* target not already joined
+    /\ s.uq = "ok" /\ SigOK(e.sig) /\ s.env # "kr_err"     \* validly signed by the sender's server
+    /\ ~(s.known /\ s.mem = "join") /\ InvEnvOK(s)         \* target not already joined (as far as R can tell)
 
-Inv3Conjuncts(q, s) == s.rv = "known" /\ q.proom = q.room /\ ~(s.known /\ s.mem = "join")
+Inv3Conjuncts(q, s) == s.rv = "known" /\ q.proom = q.room /\ ~(s.known /\ s.mem = "join") /\ Inv3EnvOK(s)
 InviteV3Exact == \A i \in Entries("InviteV3Resp") : (hist[i].res = "ok") <=> Inv3Conjuncts(hist[i].req, sc)
 
 SendJoinExact == \A i \in Entries("SendJoinResp") : (hist[i].res = "ok") <=> SJConjuncts(hist[i].req, sc)
@@ -569,7 +641,7 @@ ReturnsCountersigned ==
 \*    both by its own auth events and by the returned state, among the events that survive the signature checks)
 FedChecksPass(m, e0, s) ==
     LET e == Adopted(m, e0) IN
-    /\ m.st = "ok"
+    /\ m.st \in {"ok", "nocreate"}
     /\ e.type = "member"
     /\ JoinAuth(s.ver, AuthEvState(m, e, s), ViaOf(e))
     /\ JoinAuth(s.ver, RespState(m, s), ViaOf(e))
@@ -579,20 +651,22 @@ PerformJoinExact ==
     /\ \A i \in Entries("JoinDone") :
           (hist[i].res = "ok") <=> /\ hist[i].resp.res = "ok"
                                    /\ hist[i].resp.create \in {"ok", "badsig"}
-                                   /\ FedChecksPass(hist[i].resp, jev, sc)
+                                   /\ FedChecksPass(hist[i].resp, hist[i].jev, sc)
 
 \* consequences that must hold (sanity of the specification itself)
 NoJoinWithoutBothHandlers ==
     pj = "ok" => /\ \E i \in Entries("BuildJoin") : hist[i].built
                  /\ \E i \in Entries("SendJoinResp") : hist[i].res = "ok"
 BannedNeverJoins == (flow = "join" /\ sc.mem = "ban") => pj # "ok"
+RetrySucceedsWhereAFreshJoinWould ==
+    (flow = "join" /\ phase = "done" /\ Entries("Retry") # {} /\ sc.inRoom /\ sc.jr = "public" /\ sc.mem # "ban") => pj = "ok"
 UnforgedPublicJoinSucceeds ==
     (flow = "join" /\ phase = "done" /\ nforge = 0 /\ sc.inRoom /\ sc.jr = "public" /\ sc.mem # "ban") => pj = "ok"
 UnforgedRestrictedJoinSucceeds ==
     (flow = "join" /\ phase = "done" /\ nforge = 0 /\ sc.inRoom /\ sc.jr = "restricted" /\ sc.mem # "ban"
        /\ RestrictedVia(sc) \in {"none", "A"}) => pj = "ok"
 TamperedNeverAccepted ==
-    \A i \in Entries("SendJoinResp") \cup Entries("InviteResp") : hist[i].req.ev.sig # "valid" => hist[i].res = "refused"
+    \A i \in Entries("SendJoinResp") \cup Entries("InviteResp") : ~SigOK(hist[i].req.ev.sig) => hist[i].res = "refused"
 
 TypeOK == /\ nforge \in 0..MaxForge /\ pj \in {"", "ok", "refused"}
           /\ phase \in {"start", "mjreq", "mjresp", "built", "sjreq", "sjresp", "mlreq", "invreq", "inv3req", "done"}
